@@ -43,7 +43,7 @@ CHECKS = {
     ),
     "C06": dict(
         level="exploration",
-        required_probes=['complete_iteration_checked', 'partial_iteration_checked', 'randomised_run', 'randomised_restart_inside_iteration', 'partition_symclass_1', 'balanced_true_checked', 'balanced_false_checked', 'processed_forward_projector', 'processed_back_projector', 'processed_objective_function', 'processed_fbp2d', 'processed_tof_sensitivities', 'processed_with_normalisation', 'processed_with_zero_end_planes'],
+        required_probes=['complete_iteration_checked', 'partial_iteration_checked', 'randomised_run', 'randomised_restart_inside_iteration', 'partition_symclass_1', 'balanced_true_checked', 'balanced_false_checked', 'processed_forward_projector', 'processed_back_projector', 'processed_objective_function', 'processed_fbp2d', 'processed_tof_sensitivities', 'processed_with_normalisation', 'processed_with_zero_end_planes', 'partition_asymmetric_segment_range'],
         parts=[dict(harness="chk_C06", variant="seq", src="checks/chk_C06.cpp",
                     runs=dict(quick=8000, thorough=400000), wall_cap=dict(quick=150, thorough=2400))],
         rule=("one case = one generated plan of one of four kinds: (schedule) a real OSMAPOSL or OSSPS reconstruct() loop on a tiny "
